@@ -8,30 +8,35 @@ use crate::subject::{lists::*, map::*, merkle::*, mvreg::*, orswot::*, simple::*
 
 fn add<S: Subject>(jobs: &mut Vec<Box<dyn JobT>>, disc: Disc, q: u64, t: u64, ex: &[Class], floor: f64) {
     let pc = PlanCfg::new(Weights::mixed().with_probe(10).with_redeliver(10)).steps(6, 28).editors(2, 4);
-    let ctx = Ctx::new(disc).ex(ex);
+    let ctx = if disc == Disc::Fifo { Ctx::new(disc).ex(ex).newest() } else { Ctx::new(disc).ex(ex) };
     jobs.push(mk_job(format!("{}/{:?}/ops+merges", S::name(), disc), q, t, pc, ctx, check_hybrid::<S>).floor("nontrivial", floor).boxed());
 }
 
 pub fn property() -> Property {
     let mut jobs: Vec<Box<dyn JobT>> = Vec::new();
-    add::<SOrswot>(&mut jobs, Disc::Causal, 6000, 200_000, &[], 0.03);
-    add::<SMVReg>(&mut jobs, Disc::Causal, 4000, 100_000, &[], 0.03);
-    add::<SMVReg>(&mut jobs, Disc::Any, 4000, 100_000, &[], 0.03);
-    add::<MapOrswot>(&mut jobs, Disc::Causal, 6000, 200_000, &[Class::T1], 0.03);
-    add::<MapMVReg>(&mut jobs, Disc::Causal, 6000, 200_000, &[Class::T1, Class::T2, Class::T5], 0.03);
-    add::<MapMapMVReg>(&mut jobs, Disc::Causal, 4000, 100_000, &[Class::T1, Class::T2, Class::T5], 0.03);
-    add::<SGList>(&mut jobs, Disc::Any, 3000, 60_000, &[], 0.03);
-    add::<SMerkle>(&mut jobs, Disc::Any, 3000, 60_000, &[], 0.03);
-    add::<SGCounter>(&mut jobs, Disc::Any, 2000, 40_000, &[], 0.03);
-    add::<SPNCounter>(&mut jobs, Disc::Any, 2000, 40_000, &[], 0.03);
-    add::<SGSet>(&mut jobs, Disc::Any, 2000, 40_000, &[], 0.03);
-    add::<SLww>(&mut jobs, Disc::Any, 2000, 40_000, &[], 0.03);
-    add::<SMax>(&mut jobs, Disc::Any, 2000, 40_000, &[], 0.03);
-    add::<SMin>(&mut jobs, Disc::Any, 2000, 40_000, &[], 0.03);
+    add::<SOrswot>(&mut jobs, Disc::Causal, 18000, 200_000, &[], 0.03);
+    add::<SMVReg>(&mut jobs, Disc::Causal, 12000, 100_000, &[], 0.03);
+    add::<SMVReg>(&mut jobs, Disc::Any, 12000, 100_000, &[], 0.03);
+    add::<MapOrswot>(&mut jobs, Disc::Causal, 18000, 200_000, &[Class::T1], 0.03);
+    add::<MapMVReg>(&mut jobs, Disc::Causal, 18000, 200_000, &[Class::T1, Class::T2, Class::T5], 0.03);
+    add::<MapMapMVReg>(&mut jobs, Disc::Causal, 12000, 100_000, &[Class::T1, Class::T2, Class::T5], 0.03);
+    // operands that are NOT causally closed (they hold pending removes); the comparison with the ops-only
+    // twin is made whenever the merged / resulting knowledge is causally closed
+    add::<SOrswot>(&mut jobs, Disc::Fifo, 18000, 200_000, &[], 0.02);
+    add::<MapOrswot>(&mut jobs, Disc::Fifo, 18000, 200_000, &[Class::T1, Class::T3], 0.02);
+    add::<MapMVReg>(&mut jobs, Disc::Fifo, 18000, 200_000, &[Class::T1, Class::T2, Class::T2b, Class::T3, Class::T5, Class::T6], 0.02);
+    add::<SGList>(&mut jobs, Disc::Any, 9000, 60_000, &[], 0.03);
+    add::<SMerkle>(&mut jobs, Disc::Any, 9000, 60_000, &[], 0.03);
+    add::<SGCounter>(&mut jobs, Disc::Any, 6000, 40_000, &[], 0.03);
+    add::<SPNCounter>(&mut jobs, Disc::Any, 6000, 40_000, &[], 0.03);
+    add::<SGSet>(&mut jobs, Disc::Any, 6000, 40_000, &[], 0.03);
+    add::<SLww>(&mut jobs, Disc::Any, 6000, 40_000, &[], 0.03);
+    add::<SMax>(&mut jobs, Disc::Any, 6000, 40_000, &[], 0.03);
+    add::<SMin>(&mut jobs, Disc::Any, 6000, 40_000, &[], 0.03);
     Property {
         id: "C03",
         rule: "Plans mixing API edits, op deliveries, duplicates, merges and stale-snapshot merges freely; after every step the affected replica (and, at Probe steps, merge(state r1, state r2) for a generated pair of states/snapshots) is compared on all reads and contexts with an ops-only twin: a fresh replica fed exactly the ops of the knowledge set one by one in a generated causal order (any order for the order-free types). Non-trivial = a compared state produced by a merge of overlapping, mutually incomplete knowledge sets, in a history with (for types with removes) a remove that observed a remote update; distinct = distinct Plan hash.".into(),
-        assumptions: vec!["knowledge sets are causally closed (Causal discipline) for Orswot/Map/MVReg; arbitrary for the order-free types".into(), "Map: mismatches at keys where MAP-T1 (merge lineage) or MAP-T2 (MVReg leaves) triggers hold are exempted per key and counted".into()],
+        assumptions: vec!["compared states have causally closed knowledge for Orswot/Map/MVReg (operands may hold pending removes in the Fifo jobs); arbitrary knowledge for the order-free types".into(), "Map: mismatches at keys where MAP-T1 (merge lineage) or MAP-T2 (MVReg leaves) triggers hold are exempted per key and counted".into()],
         jobs,
     }
 }
